@@ -207,6 +207,20 @@ def main(tier=None, replay=None):
         c = gen.gen_circuit(rnd, max_gates=ck.pick(10, 20), max_ff=3)
         if rnd.random() < 0.5:
             mutate(rnd, c)
+        elif rnd.random() < 0.3:
+            # history: the circuit was transformed before it is traversed (named 1:1 forks spliced out, indices reassigned)
+            from .c09 import elim_ready
+            if elim_ready(c):
+                before = gen.circuit_state(c)
+                try:
+                    c.eliminate_1to1_forks()
+                except Exception as e:      # reported through NoException on the circuit as it was before
+                    c0 = gen.circuit_from_state(before)
+                    r0 = traversal_record(rnd, c0)
+                    r0.update(raised=True, err='eliminate_1to1_forks() before the traversal raised ' + repr(e)[:150])
+                    inputs.append(before)
+                    recs.append(r0)
+                    continue
         inputs.append(gen.circuit_state(c))
         recs.append(traversal_record(rnd, c))
         if rnd.random() < 0.35:
